@@ -41,7 +41,7 @@ def located_ok(case, out):
 class P:
     id = "C03"
     rule = ("all single-token deletions, insertions (27 tokens incl. reserved words, operators, quote and expansion openers), duplications and adjacent "
-            "swaps of generated programs, truncations at every quarter, and all strings of <= 3 symbols over 22 characters + 13 reserved words. "
+            "swaps of generated programs, truncations at every quarter, 22 ill-formed expansions x 34 contexts (words, quotes, substitutions, here-document bodies alone / after quoted and unquoted here-documents of the same line), and all strings of <= 3 symbols over 22 characters + 13 reserved words. "
             "Non-trivial = the mutant differs from its origin and has >= 2 tokens; distinct mutants counted")
     assumptions = ["sources without aliases and without multi-byte characters in the mutated corpus for the column check (columns count characters)"]
     exhaustive = True
@@ -65,7 +65,11 @@ class P:
         tpart = {"name": "here-document-truncations", "harness": "parse", "driver": None, "cases": trunc,
                  "impl_ok": lambda c, o: o.startswith("ok ") and fields(o)["E"] != "nil" and located_ok(c, o),
                  "nontrivial": lambda c: True, "distribution": {"cases": len(trunc)}}
-        return [tpart] + c02.token_parts(random.Random(seed + 7), tier, 2000 if tier == "quick" else 30000) + [{"name": "mutants-and-short-strings", "harness": "parse", "driver": None, "cases": cases, "impl_ok": located_ok,
+        ill = [G.pcase(t) for t in G.illformed_contexts()]
+        ipart = {"name": "ill-formed-expansions-in-context", "harness": "parse", "driver": None, "cases": ill,
+                 "impl_ok": lambda c, o: o.startswith("ok ") and fields(o)["E"] != "nil" and located_ok(c, o),
+                 "nontrivial": lambda c: True, "distribution": {"cases": len(ill)}}
+        return [tpart, ipart] + c02.token_parts(random.Random(seed + 7), tier, 2000 if tier == "quick" else 30000) + [{"name": "mutants-and-short-strings", "harness": "parse", "driver": None, "cases": cases, "impl_ok": located_ok,
                  "nontrivial": lambda c: len(unhx(c.split("\t")[0]).split()) >= 2,
                  "distribution": {"mutants": len(muts), "short": len(short)}}]
 
